@@ -210,6 +210,8 @@ def generate(run_seed, fault_config="all", jit=False, budget=4.0, max_pto=2, all
         if th["FNS"] not in ("ZM-VFNS", "FFNS"):
             th["FNS"] = cfg.choice(["ZM-VFNS", "FFNS"])
         th["TMC"] = cards.wchoice(cfg, [(0, 3), (1, 3), (2, 2), (3, 2)])
+        if len(ob["interpolation_xgrid"]) > 9 and th["TMC"] in (1, 3):
+            th["TMC"] = 2  # many points x wide grid x integrated TMC does not fit the watchdog
     if n3lo:
         # heavy-quark N3LO: the only path through the process-global grid memo
         # (heavy.n3lo.interpolators, keyed by coefficient, nf and variation); DESIGN §2.5
